@@ -156,6 +156,20 @@ def run(ctx: Ctx) -> None:
     ctx.saw("functions", ccl.qualname)
     succ_loop = next((n for n in ast.walk(ccl.node) if isinstance(n, ast.For) and ast.unparse(n.iter) == "bb.successors" and "live_before" in ast.unparse(n.body[0])), None)
     leak_loop = next((n for n in ast.walk(ccl.node) if isinstance(n, ast.For) and ast.unparse(n.iter) == "scope.values()"), None)
+    if leak_loop is None:
+        # located by what it does instead: the outermost loop (inside the per-block loop) that raises PlaceNotUsedError
+        per_block = next((n for n in ast.walk(ccl.node) if isinstance(n, ast.For) and "scopes.items()" in ast.unparse(n.iter)), None)
+        cands = [n for n in (ast.walk(per_block) if per_block is not None else []) if isinstance(n, ast.For) and n is not per_block
+                 and any(isinstance(c, ast.Call) and isinstance(c.func, ast.Name) and c.func.id == "PlaceNotUsedError" for c in ast.walk(n))]
+        outer = [n for n in cands if not any(n is not m and any(x is n for x in ast.walk(m)) for m in cands)]
+        leak_loop = outer[0] if outer else None
+        if leak_loop is not None:
+            ctx.violation("R-C06.2", f"{ccl.qualname}#leak-check-covers-every-visible-place", f"{ccl.module.rel}:{leak_loop.lineno}",
+                          {"iterates": ast.unparse(leak_loop.iter), "expected": "scope.values()  (all places visible in the block, inherited ones included)"},
+                          "the 'unused and not passed on' check only looks at part of the places a block can see (e.g. only the ones assigned in the "
+                          "block): a qubit that merely passes through a branching block and is consumed on one side only is leaked unnoticed")
+    else:
+        ctx.ok("R-C06.2", f"{ccl.qualname}#leak-check-covers-every-visible-place", f"{ccl.module.rel}:{leak_loop.lineno}", {"iterates": "scope.values()"})
     if succ_loop is None or leak_loop is None:
         raise AnalysisError("check_cfg_linearity: the two CFG-level loops were not found")
     inner = next((n for n in ast.walk(succ_loop) if isinstance(n, ast.For) and n is not succ_loop), None)
